@@ -118,6 +118,47 @@ for k,(b,n,h) in N4.items():
     m['check_result_quick']=res.get(k,m.get('check_result_quick',''))[:200]
     json.dump(m,open(p,'w'),indent=1,ensure_ascii=False)
 
+
+# ---- round 3, second batch (remaining properties)
+N5={
+"C01-r3-1":("base scores looked up in a table filled on first use without synchronisation","the first Score() calls of a fresh process made concurrently","caught by C01 (its workers make the first calls concurrently) and by C16's cold start"),
+"C01-r3-2":("Decode parses into a scratch object and finishes with *recv = *work","a view (BaseMetrics(), .Base) taken from the decoder object BEFORE Decode stays empty","NOT CLAIMED: the properties speak about the object Decode returns and the views obtained from it; what a pointer taken from the receiver before Decode shows afterwards is not specified (a Decode that returned a new object would satisfy every statement)"),
+"C01-r3-3":("report export reuses one package-level buffer and returns a reader over it","the reader of an earlier export read after a later export","a template-export defect (C19): caught by C19's held readers"),
+"C02-r3-1":("Decode fills and returns a COPY (value receiver helper returning &tm)","the caller queries the object Decode was called on instead of the returned one","NOT CLAIMED: the state of the receiver after a successful Decode is not specified by any property (see C01-r3-2)"),
+"C02-r3-2":("GetError early-out on len(names) < 8 for a non-nil names map","an object from NewTemporal()/NewEnvironmental() whose fields are assigned directly, with no Decode","caught by the first version of the check (directly built Temporal structs)"),
+"C02-r3-3":("per-instance table of setter closures capturing the constructor's pointer","the decoder is held BY VALUE (tv := *NewTemporal()) before its one Decode","missed first; caught after the receiver mode 'by-value copy of a constructor result' was added"),
+"C04-r3-1":("Encode()/String() derive the names map for struct literals; IsEmpty becomes len(names)==0","a v2 struct LITERAL printed before it is scored","NOT CLAIMED: struct literals of the v2 types are not reachable by a constructor or by Decode (group presence lives in unexported state); the properties do not range over them"),
+"C04-r3-2":("debug logging of the sub-scores overwrites the live variables with one-decimal values","the process has a debug-level default slog logger","a process-environment dependence: not visible to C04 (whose process keeps the default logger); caught by C15 after one of its child processes installs a debug-level default logger"),
+"C04-r3-3":("Environmental.Score tests a flag set only by Environmental.Decode instead of Temporal.IsEmpty()","an Environmental assembled around a separately decoded Temporal (embedded decoder used directly, pointer replaced, literal)","an environmental-score defect (C05): caught by C05 after assembled objects were added (C04's own scores are unaffected)"),
+"C05-r3-1":("Decode assigns a fresh object to its receiver variable unconditionally","the caller queries the decoder object instead of the returned one","NOT CLAIMED: receiver state after a successful Decode (see C02-r3-1)"),
+"C05-r3-2":("the same hasTemporal flag as C04-r3-3","Environmental assembled around a separately decoded Temporal","caught after assembled objects were added to C02-C05"),
+"C05-r3-3":("CDP weights moved into an array filled by init()","environmental scores computed inside a package-level variable initialiser of package metric itself","OUT OF REACH: only code inside the library's own package runs before its init(); an external monitor cannot produce that execution"),
+"C06-r3-1":("Environmental.Severity() memo validated against the object it was taken from, not the receiver","a by-value copy of an already rated object whose fields are then changed","missed first; caught after by-value copies of rated objects with overwritten fields were added to C06 (and as an object origin to C03)"),
+"C06-r3-2":("v2 Environmental.Severity() returns Low whenever the ADJUSTED BASE equation is negative","a negative adjusted base lifted to a positive final score by CDP: 4.9 reported Low","caught by the first version of the check (the exemption is decided on the final equation since C05-1)"),
+"C06-r3-3":("temporal rating kept in the shared *Base and validated against the Temporal it was taken from","several Temporal literals around one Base pointer","missed first; caught after Temporal literals sharing one Base were added to C06"),
+"C09-r3-1":("flat PR weight table filled on first use, ready flag set before the fill","the first scoring calls of a process made concurrently","a score defect under concurrency: fields stay correct, so not visible to C09; caught by C16 (cold start) and C01"),
+"C09-r3-2":("NewEnvironmental() stores a private pointer to its Base and Score() reads through it","an object assembled from the constructor plus a decoded part (e.Temporal = decodedTemporal)","a score defect (C03): fields stay correct, so not visible to C09; caught by C03 after assembled objects were added"),
+"C09-r3-3":("the hasTemporal-style flag of C04-r3-3 on v2","em := NewEnvironmental(); em.Temporal.Decode(v)","a score defect (C05): caught by C05 after assembled objects were added"),
+"C10-r3-1":("the scratch-object Decode of C01-r3-2","a level pointer taken from the decoder before decoding encodes as empty","NOT CLAIMED (see C01-r3-2)"),
+"C10-r3-2":("surrounding parentheses trimmed before decoding","\"(AV:N/...)\" is accepted and encodes without the parentheses","caught (library-accepted strings are round-tripped since C10-r2-1; C08 rejects the acceptance as well)"),
+"C10-r3-3":("order validation by a bit mask in a uint","a 32-bit build (GOARCH=386): environmental metrics are never order-checked","OUT OF REACH in this sandbox's configuration: the monitors run as amd64 binaries only; other GOARCH values are a configuration dimension that is not explored"),
+"C13-r3-1":("PR weight stored while decoding, corrected only when S is decoded afterwards","S:C written before PR:L/PR:H","caught after C13 decodes every second vector in a random token order (C01 caught it as well)"),
+"C13-r3-2":("effective modified scope resolved when the MS token is decoded","an explicit MS:X written before S:C","caught with the random token orders"),
+"C13-r3-3":("MPR weight resolved when MPR is decoded","an explicit MPR:X after PR:L/H but before S:C","caught with the random token orders"),
+"C18-r3-1":("default language read from LC_ALL / LC_MESSAGES / LANG at package init and substituted for und","the process starts under a Japanese POSIX locale","missed first; caught after C18 also runs child processes under LC_ALL=ja_JP.UTF-8"),
+"C18-r3-2":("table entry whose tag string is a prefix of the requested tag","three-letter codes starting with ja (jam, jax, ...)","caught by the first version of the check (lookalike codes)"),
+"C18-r3-3":("language.NewMatcher over a list built by ranging over a map at init","about 1 process in 8: non-Latin-script languages get Japanese","caught (by chance with 5 processes); now 40 (quick) / 200 (thorough) further fresh child processes make it reliable"),
+"C20-r3-1":("an environmental value is stored only after it was validated","after a Decode rejected for a bad code the RECEIVER keeps X instead of the invalid value","NOT CLAIMED: Get<Metric>(bad code) still returns the invalid value, which is what C20 states; which value a rejected Decode leaves in the receiver's field is not specified (C12 only requires objects that DO hold an invalid value to report an error)"),
+"C20-r3-2":("codes packed big-endian into a uint32 key (leading NUL bytes vanish)","\"\\x00H\", \"\\x00OF\" parse as defined v2 temporal values","missed first; caught after byte-prefixed / -suffixed variants of every code were added to the candidate strings"),
+"C20-r3-3":("version label parsed with strconv.Atoi","03.1, +3.0 map to a supported version","caught by the first version of the check (03.1 is a candidate label)"),
+}
+for k,(b,n,h) in N5.items():
+    p='/verif/seeded/%s/meta.json'%k
+    if not os.path.exists(p): print("missing",k); continue
+    m=json.load(open(p)); m['breaks_by']=b; m['needs_to_manifest']=n; m['history']=h; m['round']=3
+    m['check_result_quick']=res.get(k,m.get('check_result_quick',''))[:200]
+    json.dump(m,open(p,'w'),indent=1,ensure_ascii=False)
+
 # README
 rows=[]
 for d in sorted(glob.glob('/verif/seeded/C*-*/')):
@@ -127,7 +168,7 @@ for d in sorted(glob.glob('/verif/seeded/C*-*/')):
     json.dump(m,open(d+'meta.json','w'),indent=1,ensure_ascii=False)
     rows.append((name,m['property'],m.get('round',1),res.get(name,'?'),m.get('history','')))
 out=["# Seeded changes","",
-"Round 1: forty changes, two per property; round 2: sixty subtler ones (three per property); round 3: twenty-seven that look for dimensions a harness rarely varies (C03, C07, C08, C11, C12, C15, C16, C17, C19) (narrow inputs, multi-step histories, interleavings, cooperating sites). Each was written by an independent sub-agent that was given only the property text and its own scratch worktree (nothing from /verif), and confirmed here with `seeded/confirm.sh` in a scratch worktree: it applies, compiles, the unedited repository suite passes with it, its demonstration fails with it and passes without it. `seeded/rerun.sh` re-runs all of them against the check of their property (RESULTS.txt). `agent-notes.md` in each directory is the author's description of the changes of that property/round; `meta.json` says what the change breaks, what it needs in order to manifest, what was run and the history of the check against it.","",
+"Round 1: forty changes, two per property; round 2: sixty subtler ones (three per property); round 3: fifty-seven that look for dimensions a harness rarely varies (narrow inputs, multi-step histories, interleavings, cooperating sites). Each was written by an independent sub-agent that was given only the property text and its own scratch worktree (nothing from /verif), and confirmed here with `seeded/confirm.sh` in a scratch worktree: it applies, compiles, the unedited repository suite passes with it, its demonstration fails with it and passes without it. `seeded/rerun.sh` re-runs all of them against the check of their property (RESULTS.txt). `agent-notes.md` in each directory is the author's description of the changes of that property/round; `meta.json` says what the change breaks, what it needs in order to manifest, what was run and the history of the check against it.","",
 "| change | property | round | quick check of its property | history |","|---|---|---|---|---|"]
 for name,prop,rnd,r,h in rows:
     v="CAUGHT" if "CAUGHT" in r else ("MISSED" if "MISSED" in r else r[:30])
